@@ -387,8 +387,13 @@ class Saturation(MulVarFunc):
     def fdiff(self, argindex=1):
         if argindex == 1:
             return In(*self.args)
+        elif argindex == 2:
+            # below the lower limit the value is the limit itself
+            return LessThan(self.args[0], self.args[1])
+        elif argindex == 3:
+            return GreaterThan(self.args[0], self.args[2])
         else:
-            return Integer(0)
+            raise ArgumentIndexError(self, argindex)
 
     def _numpycode(self, printer, **kwargs):
         return r'SolCF.Saturation(' + ', '.join([printer._print(arg, **kwargs) for arg in self.args]) + r')'
